@@ -58,11 +58,14 @@ def main():
     ap.add_argument('--tier', default='quick')
     ap.add_argument('--only', default='')
     ap.add_argument('--jobs', type=int, default=2)
+    ap.add_argument('--pending', action='store_true', help="only the seeds whose meta.json says detected_by == 'pending'")
     a = ap.parse_args()
     names = sorted(n for n in os.listdir(SEEDS) if os.path.exists(os.path.join(SEEDS, n, 'patch.diff')))
     if a.only:
-        keys = a.only.split(',')
+        keys = [k for k in a.only.split(',') if k]
         names = [n for n in names if any(n.startswith(k) for k in keys)]
+    if a.pending:
+        names = [n for n in names if json.load(open(os.path.join(SEEDS, n, 'meta.json'))).get('detected_by') == 'pending']
     sh(os.path.join(HERE, 'setup.sh'))
     bad = 0
     with concurrent.futures.ThreadPoolExecutor(a.jobs) as ex:
